@@ -1,0 +1,343 @@
+// Verification-only in-memory transport (compiled only with `--cfg hotstuff_verif`).
+//
+// `TcpListener` / `TcpStream` below replace tokio's types in `receiver.rs`, `reliable_sender.rs`
+// and `simple_sender.rs`. Every socket terminates at the verification harness: `connect` hands the
+// far end of the connection (an `Endpoint`) to the harness, and only the harness can dial a
+// listening port. Nothing moves between two nodes unless the harness forwards it.
+//
+// All state lives in a thread-local `fabric`, split into namespaces so that several instances of
+// the same node (same addresses) can coexist on one thread, each on its own current-thread runtime.
+// The harness calls `enter(ns)` before polling the runtime that belongs to namespace `ns`.
+use std::any::Any;
+use std::cell::RefCell;
+use std::collections::{HashMap, HashSet, VecDeque};
+use std::io;
+use std::net::SocketAddr;
+use std::pin::Pin;
+use std::sync::{Arc, Mutex};
+use std::task::{Context, Poll, Waker};
+use tokio::io::{AsyncRead, AsyncWrite, ReadBuf};
+use tokio::sync::mpsc::{unbounded_channel, UnboundedReceiver, UnboundedSender};
+
+#[derive(Default)]
+struct PipeInner {
+    buf: VecDeque<u8>,
+    /// The writing side has been closed (reader sees EOF once `buf` is empty).
+    write_closed: bool,
+    /// The reading side has gone away (writer sees BrokenPipe).
+    read_closed: bool,
+    reader: Option<Waker>,
+}
+
+#[derive(Clone, Default)]
+struct Pipe(Arc<Mutex<PipeInner>>);
+
+impl Pipe {
+    fn push(&self, data: &[u8]) -> io::Result<()> {
+        let mut p = self.0.lock().unwrap();
+        if p.read_closed || p.write_closed {
+            return Err(io::Error::new(io::ErrorKind::BrokenPipe, "simnet: closed"));
+        }
+        p.buf.extend(data.iter());
+        if let Some(w) = p.reader.take() {
+            w.wake();
+        }
+        Ok(())
+    }
+    fn close_write(&self) {
+        let mut p = self.0.lock().unwrap();
+        p.write_closed = true;
+        if let Some(w) = p.reader.take() {
+            w.wake();
+        }
+    }
+    fn close_read(&self) {
+        let mut p = self.0.lock().unwrap();
+        p.read_closed = true;
+    }
+}
+
+/// Node-side end of a connection.
+pub struct TcpStream {
+    rd: Pipe,
+    wr: Pipe,
+}
+
+impl Drop for TcpStream {
+    fn drop(&mut self) {
+        self.wr.close_write();
+        self.rd.close_read();
+    }
+}
+
+impl AsyncRead for TcpStream {
+    fn poll_read(
+        self: Pin<&mut Self>,
+        cx: &mut Context<'_>,
+        buf: &mut ReadBuf<'_>,
+    ) -> Poll<io::Result<()>> {
+        let mut p = self.rd.0.lock().unwrap();
+        if !p.buf.is_empty() {
+            let n = std::cmp::min(buf.remaining(), p.buf.len());
+            let chunk: Vec<u8> = p.buf.drain(..n).collect();
+            buf.put_slice(&chunk);
+            return Poll::Ready(Ok(()));
+        }
+        if p.write_closed {
+            return Poll::Ready(Ok(())); // EOF
+        }
+        p.reader = Some(cx.waker().clone());
+        Poll::Pending
+    }
+}
+
+impl AsyncWrite for TcpStream {
+    fn poll_write(
+        self: Pin<&mut Self>,
+        _cx: &mut Context<'_>,
+        data: &[u8],
+    ) -> Poll<io::Result<usize>> {
+        Poll::Ready(self.wr.push(data).map(|_| data.len()))
+    }
+    fn poll_flush(self: Pin<&mut Self>, _cx: &mut Context<'_>) -> Poll<io::Result<()>> {
+        Poll::Ready(Ok(()))
+    }
+    fn poll_shutdown(self: Pin<&mut Self>, _cx: &mut Context<'_>) -> Poll<io::Result<()>> {
+        self.wr.close_write();
+        Poll::Ready(Ok(()))
+    }
+}
+
+/// Harness-side end of a connection.
+pub struct Endpoint {
+    /// Unique id (per thread) in creation order.
+    pub id: u64,
+    /// Address the node dialled (outbound) or the port the harness dialled (inbound).
+    pub addr: SocketAddr,
+    /// True when the node initiated the connection.
+    pub outbound: bool,
+    from_node: Pipe,
+    to_node: Pipe,
+}
+
+impl Endpoint {
+    /// All complete length-delimited frames (4-byte big-endian length prefix) the node has written.
+    pub fn read_frames(&self) -> Vec<Vec<u8>> {
+        let mut p = self.from_node.0.lock().unwrap();
+        let mut out = Vec::new();
+        loop {
+            if p.buf.len() < 4 {
+                break;
+            }
+            let len = u32::from_be_bytes([p.buf[0], p.buf[1], p.buf[2], p.buf[3]]) as usize;
+            if p.buf.len() < 4 + len {
+                break;
+            }
+            p.buf.drain(..4);
+            out.push(p.buf.drain(..len).collect());
+        }
+        out
+    }
+    /// Number of bytes written by the node and not yet consumed by `read_frames`.
+    pub fn unread(&self) -> usize {
+        self.from_node.0.lock().unwrap().buf.len()
+    }
+    pub fn write_frame(&self, data: &[u8]) -> bool {
+        let mut v = (data.len() as u32).to_be_bytes().to_vec();
+        v.extend_from_slice(data);
+        self.to_node.push(&v).is_ok()
+    }
+    pub fn write_raw(&self, data: &[u8]) -> bool {
+        self.to_node.push(data).is_ok()
+    }
+    /// Close the connection from the peer's side: the node reads EOF and its writes fail.
+    pub fn close(&self) {
+        self.to_node.close_write();
+        self.from_node.close_read();
+    }
+    /// The node dropped or shut down its end.
+    pub fn closed_by_node(&self) -> bool {
+        let p = self.from_node.0.lock().unwrap();
+        p.write_closed
+    }
+}
+
+impl Drop for Endpoint {
+    fn drop(&mut self) {
+        self.close();
+    }
+}
+
+pub struct TcpListener {
+    rx: tokio::sync::Mutex<UnboundedReceiver<(TcpStream, SocketAddr)>>,
+}
+
+#[derive(Default)]
+struct Namespace {
+    listeners: HashMap<u16, UnboundedSender<(TcpStream, SocketAddr)>>,
+    refuse: HashSet<SocketAddr>,
+    refuse_all: bool,
+    new_outbound: Vec<Endpoint>,
+    connect_attempts: Vec<(SocketAddr, bool)>,
+    board: HashMap<String, Box<dyn Any>>,
+    epoch: Option<tokio::time::Instant>,
+}
+
+#[derive(Default)]
+struct Fabric {
+    current: u64,
+    next_conn: u64,
+    spaces: HashMap<u64, Namespace>,
+}
+
+thread_local! {
+    static FABRIC: RefCell<Fabric> = RefCell::new(Fabric::default());
+}
+
+fn with_ns<R>(f: impl FnOnce(&mut Namespace, &mut u64) -> R) -> R {
+    FABRIC.with(|fab| {
+        let mut fab = fab.borrow_mut();
+        let cur = fab.current;
+        let fab = &mut *fab;
+        let ns = fab.spaces.entry(cur).or_default();
+        f(ns, &mut fab.next_conn)
+    })
+}
+
+/// Select the namespace used by all subsequent simnet calls on this thread.
+pub fn enter(ns: u64) {
+    FABRIC.with(|fab| fab.borrow_mut().current = ns);
+}
+
+pub fn current() -> u64 {
+    FABRIC.with(|fab| fab.borrow().current)
+}
+
+/// Forget a namespace (listeners, pending endpoints, board).
+pub fn remove(ns: u64) {
+    FABRIC.with(|fab| {
+        fab.borrow_mut().spaces.remove(&ns);
+    });
+}
+
+fn pair(addr: SocketAddr, outbound: bool, next: &mut u64) -> (TcpStream, Endpoint) {
+    let a = Pipe::default();
+    let b = Pipe::default();
+    *next += 1;
+    (
+        TcpStream {
+            rd: a.clone(),
+            wr: b.clone(),
+        },
+        Endpoint {
+            id: *next,
+            addr,
+            outbound,
+            from_node: b,
+            to_node: a,
+        },
+    )
+}
+
+impl TcpListener {
+    pub async fn bind(addr: &SocketAddr) -> io::Result<Self> {
+        let (tx, rx) = unbounded_channel();
+        let port = addr.port();
+        with_ns(|ns, _| {
+            if ns.listeners.contains_key(&port) {
+                return Err(io::Error::new(io::ErrorKind::AddrInUse, "simnet: in use"));
+            }
+            ns.listeners.insert(port, tx);
+            Ok(())
+        })?;
+        Ok(Self {
+            rx: tokio::sync::Mutex::new(rx),
+        })
+    }
+
+    pub async fn accept(&self) -> io::Result<(TcpStream, SocketAddr)> {
+        match self.rx.lock().await.recv().await {
+            Some(x) => Ok(x),
+            None => std::future::pending().await,
+        }
+    }
+}
+
+impl TcpStream {
+    pub async fn connect(addr: SocketAddr) -> io::Result<Self> {
+        with_ns(|ns, next| {
+            let refused = ns.refuse_all || ns.refuse.contains(&addr);
+            ns.connect_attempts.push((addr, !refused));
+            if refused {
+                return Err(io::Error::new(
+                    io::ErrorKind::ConnectionRefused,
+                    "simnet: refused",
+                ));
+            }
+            let (stream, ep) = pair(addr, true, next);
+            ns.new_outbound.push(ep);
+            Ok(stream)
+        })
+    }
+}
+
+/// Harness: open a connection to a port some node listens on (in the current namespace).
+pub fn dial(port: u16) -> Option<Endpoint> {
+    with_ns(|ns, next| {
+        let tx = ns.listeners.get(&port)?;
+        let addr: SocketAddr = format!("127.0.0.1:{}", port).parse().unwrap();
+        let (stream, ep) = pair(addr, false, next);
+        let peer: SocketAddr = format!("127.0.0.1:{}", 40_000 + (*next % 20_000)).parse().unwrap();
+        tx.send((stream, peer)).ok()?;
+        Some(ep)
+    })
+}
+
+/// Harness: is some node listening on this port?
+pub fn is_bound(port: u16) -> bool {
+    with_ns(|ns, _| ns.listeners.contains_key(&port))
+}
+
+/// Harness: take the connections nodes have opened since the last call.
+pub fn take_outbound() -> Vec<Endpoint> {
+    with_ns(|ns, _| std::mem::take(&mut ns.new_outbound))
+}
+
+/// Harness: (address, accepted) of every connect attempt since the last call.
+pub fn take_connect_attempts() -> Vec<(SocketAddr, bool)> {
+    with_ns(|ns, _| std::mem::take(&mut ns.connect_attempts))
+}
+
+/// Harness: refuse (or stop refusing) connects to `addr`.
+pub fn set_refuse(addr: SocketAddr, refuse: bool) {
+    with_ns(|ns, _| {
+        if refuse {
+            ns.refuse.insert(addr);
+        } else {
+            ns.refuse.remove(&addr);
+        }
+    })
+}
+
+pub fn set_refuse_all(refuse: bool) {
+    with_ns(|ns, _| ns.refuse_all = refuse)
+}
+
+/// Instrumented code: publish a read-only snapshot under `key`.
+pub fn board_put(key: String, value: Box<dyn Any>) {
+    with_ns(|ns, _| {
+        ns.board.insert(key, value);
+    })
+}
+
+/// Harness: read a published snapshot.
+pub fn board_get<T: Clone + 'static>(key: &str) -> Option<T> {
+    with_ns(|ns, _| ns.board.get(key).and_then(|b| b.downcast_ref::<T>()).cloned())
+}
+
+/// Virtual wall clock in milliseconds: the runtime's (paused) clock, offset so it is never small.
+pub fn now_millis() -> u128 {
+    let now = tokio::time::Instant::now();
+    let epoch = with_ns(|ns, _| *ns.epoch.get_or_insert(now));
+    1_000_000_000u128 + now.saturating_duration_since(epoch).as_millis()
+}
